@@ -510,18 +510,22 @@ func stLineSig(raw []byte) string {
 func runC09(env *vk.Env) {
 	env.Cov.Rule = "S: TLC checks Stream.tla's full-read loop against Demand(need, fault) and termination for all compositions x fault offsets x kinds of inputs up to 7 bytes. A: each emitted (total, need, segmentation, fault) is applied to real readers whose value needs exactly `need` bytes. B: every reader entry (all wire field types, Option/Ary/Tuple, FixedBitSet, sign.Signature, frames in three modes, NBT into any/raw/dynbt/stringified/typed, RCON packets) under one-byte, two-segment and random segmentations and every fault offset (both kinds, plain and ByteReader transports); every writer entry under a sink failing after k bytes for every k. Distinct/non-trivial = distinct (entry, schedule class)."
 	env.Assume = []string{"readers that return (0, nil) are not generated", "need, the contiguous value and its byte count are observed on the contiguous run of the same real code (the property's own oracle)"}
-	res := env.MustSpec(vk.TLCRun{Name: "S+A Stream_MC", Module: "Stream", Cfg: "Stream_MC.cfg", Workers: 8})
+	cfg := "Stream_MC.cfg"
+	if !env.Quick() {
+		cfg = "Stream_MC_thorough.cfg"
+	}
+	res := env.MustSpec(vk.TLCRun{Name: "S+A Stream_MC", Module: "Stream", Cfg: cfg, Workers: 8, Timeout: 20 * time.Minute})
 	if res == nil {
 		return
 	}
 	env.Cov.Exhaustive = true
 	rng := newRand(env.Seed, "c09")
-	rs, ws := stEntries(rng, env.Pick(1, 4))
+	rs, ws := stEntries(rng, env.Pick(1, 10))
 	// leg A: TLC schedules on entries with matching need
 	byNeed := map[int][]int{}
 	for i, e := range rs {
 		base := stRun(e, []int{len(e.Input)}, stFault{Kind: "none"}, false)
-		if base.ok && !base.panicked && base.consumed <= 7 {
+		if base.ok && !base.panicked && base.consumed <= 10 {
 			byNeed[base.consumed] = append(byNeed[base.consumed], i)
 		}
 	}
